@@ -102,6 +102,33 @@ def run(ctx):
                "after an operation that moves a comparator input the comparator bit is input > DAC voltage "
                "(comparator 2: the larger of input 2 and the temperature sensor)", b.loc(),
                "expected %s=%s; DASR after: %s" % (bit, want, _short(d)))
+    # ---- 3b. comparator threshold = the reported DAC voltage, to the last bit ------------------------
+    # for every DAC byte b: an input equal to the reported DAC voltage f32(b/100) does not exceed it, the next
+    # representable voltage above does (binary32 arithmetic reproduced exactly; 4 update paths x 256 bytes x 2)
+    ties_bad = []
+    nties = 0
+    for bbyte in range(256):
+        v = D.fbinop("Div", Fl(float(bbyte), float(bbyte)), Fl(100.0, 100.0)).lo
+        for label, volt, want in (("equal", v, False), ("next-above", D.f32_next_up(v), True)):
+            if volt > 5.0:
+                continue
+            fv = Fl(volt, volt)
+            for m, args, ov, bit in (
+                    ("set_analog_input1", [fv], {"digital_output1": bbyte}, "COMP_DAC1"),
+                    ("set_digital_output1", [bbyte], {"analog_inputs": Arr([fv, Fl(0.0, 0.0)])}, "COMP_DAC1"),
+                    ("set_analog_input2", [fv], {"digital_output2": bbyte, "temp": Fl(0.0, 0.0)}, "COMP_DAC2"),
+                    ("set_digital_output2", [bbyte], {"analog_inputs": Arr([Fl(0.0, 0.0), fv]), "temp": Fl(0.0, 0.0)}, "COMP_DAC2")):
+                get, r, bad, w, b = call(m, board(**ov), *args)
+                d = get("dasr.bits")
+                nties += 1
+                if not bits_all(d, DASR[bit], want) or bad:
+                    ties_bad.append("%s: DAC byte %d, input %s the DAC voltage %r: %s should be %s" %
+                                    (m, bbyte, label.replace("-", " "), v, bit, int(want)))
+    chk.ob("comparator/threshold-is-dac-voltage", not ties_bad,
+           "the comparator threshold is exactly the reported DAC voltage byte/100 (binary32): an input equal to it does not "
+           "exceed it, the next representable voltage does", p.need_body(BOARD + "::update_comp1").loc() if (BOARD + "::update_comp1") in p.bodies else "board.rs",
+           "; ".join(ties_bad[:3]) or "%d tie cells" % nties, "A4 with exact binary32 arithmetic on singleton voltages")
+    chk.floor("comparator tie cells", nties, 1900)
     # ---- 4. UIO direction, jumpers, digital input -----------------------------------
     for n in (1, 2, 3):
         m = "set_universal_input_output%d" % n
@@ -243,7 +270,6 @@ def run(ctx):
     bnd = D.bounds(rpm) if D.is_scalar(rpm) else None
     chk.ob("fan-rpm-range", bnd is not None and bnd[0] == 0 and 4190 <= bnd[1] <= 4200,
            "the fan speed is proportional to DAC 1 (0..4200 rpm over 0..2.55 V)", b.loc(), "fan_rpm after write: %s" % (bnd,))
-    chk.assume("exact float rounding of /100.0 and comparator ties are not decided")
     chk.sample({"cell": "set_temp(NaN)", "stored": "0.0"})
 
 
